@@ -37,6 +37,11 @@ Definition E_empty := err_shape "org.example.Empty" [].
 Definition E_shadow := err_shape "org.varlink.service"
   [ ("PermissionDenied", derive_unit, []); ("Custom", KStruct, [("why", str, FPlain)]) ].
 
+(* the options of a field spread over several #[zlink(..)] attributes: the wire names are the renames *)
+Definition E_spread := err_shape "org.example.Spread"
+  [ ("Quota", KStruct, [("maxBytes", u32, FPlain); ("usedBytes", u32, FPlain); ("fileName", str, FPlain)]);
+    ("Busy", derive_unit, []) ].
+
 (* Fields named with raw identifiers.  The wire name of an un-renamed `r#type` is `type` (what
    serde and the rest of the crate use): E_raw.  As of fe0c0b5 the ReplyError derive takes
    `ident.to_string()` = "r#type" for both directions: E_raw_asis (open finding
